@@ -87,6 +87,10 @@ fn gen_pair(rng: &mut Rng, index: u64) -> (Geometry<f64>, Geometry<f64>) {
     // all 100 ordered kind pairs in turn
     let ka = index % 10;
     let kb = (index / 10) % 10;
+    if rng.chance(1, 20) {
+        let (a, b) = if rng.chance(1, 2) { box_corner_pair(rng) } else { tongue_pair(rng) };
+        return if rng.chance(1, 2) { (a, b) } else { (b, a) };
+    }
     match rng.below(10) {
         0 | 1 => {
             // B inside a hole of A (A areal): frame with hole; the hole may touch B's box
